@@ -238,6 +238,18 @@ Theorem strides_inv_cnn : forall st c a m r1 r2 S,
 Proof. exact cnn_strides_inv. Qed.
 Print Assumptions strides_inv_cnn.
 
+(* all quantities together, over every chain of mutation calls *)
+Theorem bounds_inv_cnn : forall st c K S a m r1 r2,
+  1 <= c_min_layers c -> 9 <= K -> cnn_meth_ok m ->
+  cnn_in_bounds c K S a -> cnn_in_bounds c K S (arch_of (cnn_step st c a m r1 r2)).
+Proof. exact cnn_bounds_inv. Qed.
+Print Assumptions bounds_inv_cnn.
+
+Theorem bounds_chain_cnn : forall st c K S, 1 <= c_min_layers c -> 9 <= K -> forall ops a,
+  Forall (fun o : cnn_op => cnn_meth_ok (fst (fst o))) ops -> cnn_in_bounds c K S a -> cnn_in_bounds c K S (cnn_run st c a ops).
+Proof. exact cnn_bounds_chain. Qed.
+Print Assumptions bounds_chain_cnn.
+
 (* PARTIAL: validity (every layer's input is at least as large as its kernel, so torch can build and run
    the network) is preserved by add_layer, remove_layer, add_channel, remove_channel.  Missing: change_kernel,
    which is refuted in general below (it holds on every architecture the correspondence walks reached). *)
@@ -344,7 +356,7 @@ Proof. exact net_bounds_chain. Qed.
 Print Assumptions bounds_chain_net.
 
 Theorem latent_effective_net : forall s c a nn r1 r2,
-  let n := arg nn (choose latent_choices r1) in
+  let n := arg nn (choose latent_choices r2) in
   (n_latent a + n < n_max_latent c ->
    net_step s c a (NAddLatent nn) r1 r2 =
    ({| n_latent := n_latent a + n; n_enc := n_enc a; n_head := n_head a |}, "add_latent_node"%string, [n])) /\
